@@ -53,7 +53,11 @@ BASES: Dict[str, Tuple[str, ...]] = {
     "class:DefaultDict": (OBJ,),
     "class:TypedDict": (OBJ,),
     "class:Any": (OBJ,),
+    # class objects that are false as truth values (a metaclass with __len__ / __bool__: a registry that is still empty)
+    "class:Registry": ("class:Base",),
+    "class:EmptyEnum": (OBJ,),
 }
+FALSY_CLASSES = ("class:Registry", "class:EmptyEnum")
 NAMESAKES = ("class:Union", "class:List", "class:Dict", "class:Tuple", "class:Set", "class:Generator", "class:Iterator", "class:DefaultDict",
              "class:TypedDict", "class:Any")
 
@@ -79,7 +83,7 @@ def mro(c: str) -> Tuple[str, ...]:
 
 
 def cls(name: str) -> S:
-    return S(name)
+    return S(name, truth=name not in FALSY_CLASSES)
 
 
 def g(origin: str, *args: V) -> R:
@@ -663,6 +667,8 @@ ALPHABET: List[V] = [
     g("Tuple"), g("Tuple", INT), g("Tuple", INT, INT), g("Tuple", STR), g("Type", BASE),
     S("mod:typing.Callable"), g("Iterator", ANY), g("Iterator", INT), g("Generator", INT, NONE_T, NONE_T), g("Generator", INT, NONE_T, STR),
     R("generic", origin=K("Tuple"), args=K(None)),  # bare Tuple
+    # dicts keyed / tuples filled by a class object that is false as a truth value
+    g("Dict", cls("class:Registry"), cls("builtin:int")), g("Dict", cls("class:EmptyEnum"), cls("builtin:str")), cls("class:Registry"),
     # anonymous TypedDicts (a generator's yield types are joined by a raw Union: they meet empty containers and each other un-merged)
     anon_td({"a": cls("builtin:int")}), anon_td({"a": cls("builtin:int")}, {"b": cls("builtin:str")}), anon_td({}, {"b": cls("builtin:str")}),
 ]
@@ -685,6 +691,9 @@ LARGE: List[Tuple[V, ...]] = [
     (g("Dict", STR, INT), g("Dict", STR, STR), g("Dict", STR, FLT), g("Dict", STR, BYT), g("Dict", STR, BOOL), g("Dict", STR, NONE_T)),
     (g("List", ANY), g("Set", ANY), g("Dict", ANY, ANY), INT, STR, FLT, NONE_T),
     (g("Type", BASE), g("Type", L1), S("mod:typing.Callable"), g("Iterator", ANY), INT, STR, NONE_T),
+    # more tuples than the maximum, the first ones filled by a falsy class object
+    (g("Tuple", cls("class:Registry")), g("Tuple", cls("class:Registry"), cls("class:Registry")), g("Tuple", INT), g("Tuple", INT, INT), g("Tuple", INT, INT, INT), g("Tuple", INT, INT, INT, INT)),
+    (g("Dict", cls("class:Registry"), INT), g("Dict", cls("class:EmptyEnum"), STR)),
 ]
 
 
